@@ -131,3 +131,49 @@ Proof.
     + rewrite !get_group_put_list. unfold get_group. cbn [groups set_groups]. rewrite nth_error_app2 by apply Nat.le_refl.
       rewrite Nat.sub_diag. reflexivity.
 Qed.
+
+(* ---------- the copy constructor, as the model's command ---------- *)
+(* `new (slot dst) CallbackList(src)`: the new list object gets a group of its own — the last one of the state — which is
+   exactly clone_chain of the source's chain into the empty group with the first generation a fresh list draws (1), and its
+   counter is that generation; the source's list object and group are untouched.  With clone_of_a_list: the copy is a
+   well-formed list with the source's callbacks in the source's order, made of nodes of its own. *)
+Theorem copy_constructor_clones W c1 c2 c3 behav rec k st src dst so sg st' :
+  (1 < W)%N ->
+  get_list st src = Some so -> get_group st (lg so) = Some sg ->
+  step W c1 c2 c3 behav rec k st (CopyCtor src dst) = Some st' ->
+  let g := length (groups st) in
+  get_list st' dst = Some (mkLobj g 1%N) /\
+  get_group st' g = Some (clone_chain (length (heap sg)) (heap sg) (ghead sg) empty_group 1%N) /\
+  get_list st' src = Some so /\ get_group st' (lg so) = Some sg.
+Proof.
+  intros HW Hs Hg H. cbv zeta. cbn [step] in H. rewrite Hs in H.
+  unfold new_list in H. destruct (nth_error (lists st) dst) as [[o|]|] eqn:Ed; try discriminate.
+  set (st1 := put_list (set_groups st (groups st ++ [empty_group])) dst (Some (mkLobj (length (groups st)) 0%N))) in H.
+  assert (Hne : src <> dst).
+  { intro E. subst dst. unfold get_list in Hs. rewrite Ed in Hs. discriminate. }
+  assert (Hs1 : get_list st1 src = Some so).
+  { unfold st1. rewrite get_list_put_other by exact Hne. exact Hs. }
+  assert (Hd1 : get_list st1 dst = Some (mkLobj (length (groups st)) 0%N)).
+  { unfold st1, get_list, put_list. cbn [lists set_lists set_groups]. rewrite (nth_error_upd_same _ _ _ _ Ed). reflexivity. }
+  assert (Glt : lg so < length (groups st)) by (apply nth_error_Some; unfold get_group in Hg; rewrite Hg; discriminate).
+  assert (Hg1 : get_group st1 (lg so) = Some sg).
+  { unfold st1. rewrite get_group_put_list. unfold get_group. cbn [groups set_groups]. rewrite nth_error_app1 by exact Glt. exact Hg. }
+  assert (Hn1 : get_group st1 (length (groups st)) = Some empty_group).
+  { unfold st1. rewrite get_group_put_list. unfold get_group. cbn [groups set_groups]. rewrite nth_error_app2 by apply Nat.le_refl.
+    rewrite Nat.sub_diag. reflexivity. }
+  unfold clone_into in H. rewrite Hs1, Hg1 in H. unfold next_counter in H. rewrite Hd1 in H. cbn [lcur lg] in H.
+  assert (E1 : ((0 + 1) mod W = 1)%N) by (apply N.mod_small; exact HW). rewrite E1 in H.
+  change (GenCL.wrap_test 1%N) with false in H. cbv beta iota in H.
+  set (st2 := put_list st1 dst (Some (mkLobj (length (groups st)) 1%N))) in H.
+  assert (Hd2 : get_list st2 dst = Some (mkLobj (length (groups st)) 1%N)) by (unfold st2; apply (get_list_put_same _ _ _ _ Hd1)).
+  rewrite Hd2 in H. cbn [lg] in H.
+  assert (Hn2 : get_group st2 (length (groups st)) = Some empty_group) by (unfold st2; rewrite get_group_put_list; exact Hn1).
+  rewrite Hn2 in H. inversion H; subst st'. clear H.
+  split; [|split; [|split]].
+  - rewrite get_list_put_group. exact Hd2.
+  - unfold get_group, put_group. cbn [groups set_groups]. unfold get_group in Hn2.
+    rewrite (nth_error_upd_same _ _ _ _ Hn2). reflexivity.
+  - rewrite get_list_put_group. unfold st2. rewrite get_list_put_other by exact Hne. exact Hs1.
+  - unfold get_group, put_group. cbn [groups set_groups]. rewrite nth_error_upd_other by lia.
+    change (get_group st2 (lg so) = Some sg). unfold st2. rewrite get_group_put_list. exact Hg1.
+Qed.
